@@ -84,6 +84,47 @@ def gen_doc_table():
             "Definition doc_table : list (str * Z) := [\n    %s].\n" % body)
     return write_if_changed(os.path.join(COQ, "Gen", "DocTable.v"), text)
 
+def gen_impl_consts():
+    """Gen/ImplConsts.v: constants and the binding-power formula translated from the source text of /repo on every run
+    (parser.rs MAX_DEPTH; operator.rs InfixOpManager::get_precidence). A shape the translator does not recognise yields
+    `recognised := false`, which breaks the theorems that compare these with the hand-written model."""
+    parser = open(os.path.join(REPO, "src", "parser.rs"), encoding="utf-8").read()
+    oper = open(os.path.join(REPO, "src", "operator.rs"), encoding="utf-8").read()
+    ok = True
+    m = re.search(r"const\s+MAX_DEPTH\s*:\s*usize\s*=\s*(\d+)\s*;", parser)
+    max_depth = m.group(1) if m else "0"
+    ok = ok and bool(m)
+    # the two guards compare with `>` (strictly greater): depth and height may reach MAX_DEPTH itself
+    guards = re.findall(r"if\s+self\.(depth|height)\s*(>=|>)\s*MAX_DEPTH", parser)
+    strict = sorted(guards) == [("depth", ">"), ("height", ">")]
+    ok = ok and strict
+    body = re.search(r"fn\s+get_precidence\s*\(&self,\s*op:\s*&str\)\s*->\s*\(i32,\s*i32\)\s*\{(.*?)\n    \}", oper, re.S)
+    mul, left, right, unreg = "0", "0", "0", ("0", "0")
+    if body:
+        b = body.group(1)
+        m1 = re.search(r"let\s+l_bp\s*=\s*config\.0\s*\*\s*(\d+)\s*;", b)
+        m2 = re.search(r"InfixOpAssociativity::LEFT\s*\{\s*r_bp\s*=\s*l_bp\s*([+-])\s*(\d+)\s*;", b)
+        m3 = re.search(r"InfixOpAssociativity::RIGHT\s*\{\s*r_bp\s*=\s*l_bp\s*([+-])\s*(\d+)\s*;", b)
+        m4 = re.search(r"is_err\(\)\s*\{\s*return\s*\(\s*(-?\d+)\s*,\s*(-?\d+)\s*\)\s*;", b)
+        m5 = re.search(r"\(\s*l_bp\s*,\s*r_bp\s*\)\s*$", b.strip())
+        if m1 and m2 and m3 and m4 and m5:
+            mul = m1.group(1); left = m2.group(1).replace('+', '') + m2.group(2); right = m3.group(1).replace('+', '') + m3.group(2)
+            unreg = (m4.group(1), m4.group(2))
+        else:
+            ok = False
+    else:
+        ok = False
+    def z(v): return "(%s)%%Z" % v
+    text = ("(* GENERATED on every run by vlib/build.py from the source text of /repo/src/parser.rs and operator.rs. *)\n"
+            "From Coq Require Import ZArith NArith.\nOpen Scope N_scope.\n\n"
+            "Definition recognised : bool := %s.\n"
+            "Definition impl_max_depth : N := %s.\n"
+            "Definition impl_bp (prec : Z) (right : bool) : Z * Z :=\n"
+            "  let l_bp := (prec * %s)%%Z in (l_bp, if right then (l_bp + %s)%%Z else (l_bp + %s)%%Z).\n"
+            "Definition impl_bp_unregistered : Z * Z := (%s, %s).\n"
+            % ("true" if ok else "false", max_depth, mul, z(right), z(left), z(unreg[0]), z(unreg[1])))
+    return write_if_changed(os.path.join(COQ, "Gen", "ImplConsts.v"), text)
+
 def coq_make(target=None, timeout=1500):
     if not os.path.exists(os.path.join(COQ, "Makefile")) or \
        os.path.getmtime(os.path.join(COQ, "_CoqProject")) > os.path.getmtime(os.path.join(COQ, "Makefile")):
@@ -122,6 +163,7 @@ def ensure_built(release=False, log=None):
         write_if_changed(table_path(), out)
         gen_impl_table()
         gen_doc_table()
+        gen_impl_consts()
         # the model and its extraction first: the correspondence must run even when a proof is broken
         rc, out = coq_make("Extract/Extract.vo")
         if rc != 0:
